@@ -1,4 +1,5 @@
 import TrackVerif.GPMF.Mp4
+import TrackVerif.GPMF.Mp4Spec
 import TrackVerif.GPMF.Spec
 import TrackVerif.Generated.GPMF
 /-
@@ -150,6 +151,96 @@ theorem degenerate_is_error (t : Mp4Tables) (h : t.timescale = 0 ∨ t.offsets =
   · by_cases hts : t.timescale = 0
     · exact ⟨.invalid, by simp [hts]⟩
     · exact ⟨.invalid, by simp [hts, h]⟩
+
+/-! ### Every valid layout is accepted and read as the tables say -/
+
+/-- **for every valid sample-table layout** (stsc runs from chunk 1 with increasing first-chunk
+    numbers that account for exactly the samples of stsz — minimal or redundant —, any run-length
+    split of stts that covers them, stco or co64 as one list of offsets, any non-zero timescale):
+    the decoder accepts the tables, and the extents and decode-time intervals it visits are exactly
+    those of the declarative reading `specReads` (chunk c holds the next `cs[c]` samples back to
+    back from its offset; sample s lasts from the sum of the durations before it to that plus its own) -/
+theorem valid_layout_read_as_specified (t : Mp4Tables) (offs : List Nat) (h : ValidLayout t offs) :
+    sampleReads t = .ok (specReads t offs) :=
+  sampleReads_eq_spec t offs h
+
+/-- the declarative reading in closed form: chunk c (zero-based) starts with the sample after the
+    `(cs.take c).sum` samples of the chunks before it -/
+theorem spec_closed_form (t : Mp4Tables) (offs : List Nat) :
+    specReads t offs =
+      (List.range (expandStsc t.stsc offs.length).length).flatMap fun c =>
+        chunkReads t (expandStts t.sttsCount t.sttsDelta) (offs.getD c 0)
+          (((expandStsc t.stsc offs.length).take c).sum) ((expandStsc t.stsc offs.length).getD c 0) := by
+  have gen : ∀ (cs : List Nat) (c b : Nat),
+      specFrom t (expandStts t.sttsCount t.sttsDelta) offs cs c b =
+        (List.range cs.length).flatMap fun i =>
+          chunkReads t (expandStts t.sttsCount t.sttsDelta) (offs.getD (c + i) 0) (b + (cs.take i).sum) (cs.getD i 0) := by
+    intro cs
+    induction cs with
+    | nil => intro c b; simp [specFrom]
+    | cons n cs ih =>
+      intro c b
+      rw [specFrom, ih, List.length_cons, List.range_succ_eq_map, List.flatMap_cons, List.flatMap_map]
+      simp only [Nat.add_zero, List.take_zero, List.sum_nil, List.getD_cons_zero]
+      congr 1
+      have : ∀ i, (fun i => chunkReads t (expandStts t.sttsCount t.sttsDelta) (offs.getD (c + 1 + i) 0)
+            (b + n + (cs.take i).sum) (cs.getD i 0)) i =
+          ((fun i => chunkReads t (expandStts t.sttsCount t.sttsDelta) (offs.getD (c + i) 0)
+            (b + ((n :: cs).take i).sum) ((n :: cs).getD i 0)) ∘ Nat.succ) i := by
+        intro i
+        simp only [Function.comp, Nat.succ_eq_add_one, List.take_succ_cons, List.sum_cons, List.getD_cons_succ]
+        rw [show c + 1 + i = c + (i + 1) by omega, show b + n + (cs.take i).sum = b + (n + (cs.take i).sum) by omega]
+      rw [funext this]
+      rfl
+  unfold specReads
+  rw [gen]
+  simp
+
+/-- a valid layout exists (the premises of `valid_layout_read_as_specified` are satisfiable): five
+    samples in chunks of 2, 2, 1 written with a redundant stsc run, two stts runs, 64-bit-sized offsets -/
+example : ValidLayout
+    { timescale := 1001, stsc := [(1, 2), (2, 2), (3, 1)], sttsCount := [3, 0, 2], sttsDelta := [1001, 7, 500],
+      sizes := [8, 16, 8, 24, 8], uniform := 0, sampleNumber := 5,
+      offsets := some [5000000000, 40, 900], hasTrack := true } [5000000000, 40, 900] :=
+  { timescale := by decide, offsets := rfl, first := by decide, runs := by simp [stscOK],
+    samples := by decide, sttsLen := by decide, sttsCover := by decide }
+
+example : specReads
+    { timescale := 1001, stsc := [(1, 2), (3, 1)], sttsCount := [3, 0, 2], sttsDelta := [1001, 7, 500],
+      sizes := [8, 16, 8, 24, 8], uniform := 0, sampleNumber := 5,
+      offsets := some [5000, 40, 900], hasTrack := true } [5000, 40, 900] =
+    [⟨1, 5000, 8, 0, 1001⟩, ⟨2, 5008, 16, 1001, 2002⟩, ⟨3, 40, 8, 2002, 3003⟩, ⟨4, 48, 24, 3003, 3503⟩,
+     ⟨5, 900, 8, 3503, 4003⟩] := by decide
+
+/-- the telemetry of the file is the telemetry of its samples, each exactly once, in that order -/
+theorem telemetry_is_concatenation {α : Type} [FNum α] (tb : Tables) (t : Mp4Tables) (file : Bytes)
+    (rs : List SampleRead) (f : SampleRead → List (List UInt8 × List Int)) (ht : t.hasTrack = true)
+    (hr : sampleReads t = .ok rs)
+    (hs : ∀ r ∈ rs, decodeSample (α := α) tb t.timescale file r = .ok (f r)) :
+    decodeMp4 (α := α) tb t file = .ok (rs.flatMap f) := by
+  have gen : ∀ (rs : List SampleRead) (acc : List (List UInt8 × List Int)),
+      (∀ r ∈ rs, decodeSample (α := α) tb t.timescale file r = .ok (f r)) →
+      rs.foldlM (fun acc r => (decodeSample (α := α) tb t.timescale file r).map (acc ++ ·)) acc =
+        Outcome.ok (acc ++ rs.flatMap f) := by
+    intro rs
+    induction rs with
+    | nil => intro acc _; simp
+    | cons r rs ih =>
+      intro acc h
+      rw [List.foldlM_cons, h r (by simp)]
+      simp only [Outcome.map, bind_ok, bind_eq]
+      have := ih (acc ++ f r) (fun r' hr' => h r' (by simp [hr']))
+      simp only [Outcome.map] at this
+      rw [this]
+      simp
+  unfold decodeMp4
+  simp only [ht, hr]
+  simpa using gen rs [] hs
+
+/-- a file without a GoPro metadata track is reported as an error -/
+theorem no_track_is_error {α : Type} [FNum α] (tb : Tables) (t : Mp4Tables) (file : Bytes)
+    (ht : t.hasTrack = false) : decodeMp4 (α := α) tb t file = .err .notFound := by
+  simp [decodeMp4, ht]
 
 /-! ### Media time -/
 
